@@ -47,6 +47,14 @@ package net
 //@   ensures [consumed] result.3 == nil ==> inPos(conn) == old(inPos(conn)) + 5 + len(result.1) + len(result.2)
 //@   // a frame announcing more than the limit is refused (and nothing of that size is allocated: make-size obligations)
 //@   ensures [limit]    int(inAt(conn, old(inPos(conn))+1)) + 256*int(inAt(conn, old(inPos(conn))+2)) + 65536*int(inAt(conn, old(inPos(conn))+3)) + 16777216*int(inAt(conn, old(inPos(conn))+4)) > maxBuffLen ==> result.3 != nil
+//@   // and only such a frame is refused for its size: an error means that a read failed or that the announced payload length
+//@   // exceeds the limit (the topic does not count towards the limit; a payload of exactly the limit is accepted)
+//@   ghost-var failedReads int
+//@   after-call io.ReadFull(rd, bf):
+//@     ghost failedReads = ite(result.1 != nil, failedReads + 1, failedReads)
+//@   at return:
+//@     assert [refused-only-above-limit] result.3 != nil ==> failedReads >= 1 ||
+//@            int(inAt(conn, old(inPos(conn))+1)) + 256*int(inAt(conn, old(inPos(conn))+2)) + 65536*int(inAt(conn, old(inPos(conn))+3)) + 16777216*int(inAt(conn, old(inPos(conn))+4)) > maxBuffLen
 //@
 //@ func (*remoteParty).send
 //@   props C10 C17
